@@ -612,3 +612,234 @@ Proof.
   - cbn [t_instr] in T. inversion T; subst. inv_some E. inversion E; subst. eapply is_retreg; eauto.
   - discriminate.
 Qed.
+
+(* ------------------------------------------------------------------ programs: labels, fetch *)
+Lemma lab_name_eqb : forall a b, String.eqb (lab_name a) (lab_name b) = Nat.eqb a b.
+Proof.
+  induction a as [|a IH]; intros [|b]; cbn; try reflexivity.
+  apply IH.
+Qed.
+
+Lemma t_instr_shape : forall i a, t_instr i = Some a -> exists mn ops, a = AIns mn [] ops.
+Proof.
+  intros i a H. destruct i as [r z|o r|ax r n d|t r1 r2|q m|v a0 ix|r a0 ix|d x y|d x y m|n a0|a0|r|k];
+    cbn in H; try discriminate; try (destruct o); inversion H; eauto.
+Qed.
+
+Lemma t_prog_nth : forall c P, t_prog c = Some P ->
+  List.length P = List.length c /\
+  forall k x, nth_error c k = Some x -> exists a, t_fcmd x = Some a /\ nth_error P k = Some a.
+Proof.
+  induction c as [|x c IH]; intros P H; cbn in H.
+  - inversion H. split; [reflexivity|]. intros [|k] y Hy; discriminate.
+  - destruct (t_fcmd x) as [a|] eqn:Ea; [|discriminate]. destruct (t_prog c) as [P'|] eqn:Ep; [|discriminate].
+    inversion H; subst P. destruct (IH P' eq_refl) as [Hl Hn]. split; [cbn; lia|].
+    intros [|k] y Hy; cbn in Hy |- *; [inversion Hy; subst; eauto|apply Hn; exact Hy].
+Qed.
+
+Lemma label_pos_find : forall c P l pos, t_prog c = Some P ->
+  G.find_lab l c pos = option_map (fun p => (pos + p)%nat) (label_pos P (lab_name l)).
+Proof.
+  induction c as [|x c IH]; intros P l pos H; cbn in H.
+  - inversion H. reflexivity.
+  - destruct (t_fcmd x) as [a|] eqn:Ea; [|discriminate]. destruct (t_prog c) as [P'|] eqn:Ep; [|discriminate].
+    inversion H; subst P. specialize (IH P' l (S pos) eq_refl).
+    assert (Hshift : option_map (fun p => (S pos + p)%nat) (label_pos P' (lab_name l)) =
+                     option_map (fun p => (pos + p)%nat) (option_map S (label_pos P' (lab_name l)))).
+    { destruct (label_pos P' (lab_name l)); cbn; [f_equal; lia|reflexivity]. }
+    destruct x as [i|cnd x y l'|l'|l'].
+    + cbn [G.find_lab]. destruct (t_instr_shape _ _ Ea) as (mn & ops & ->). cbn [label_pos]. rewrite IH. exact Hshift.
+    + cbn [G.find_lab]. destruct cnd; cbn in Ea; inversion Ea; subst a; cbn [label_pos]; rewrite IH; exact Hshift.
+    + cbn in Ea. inversion Ea; subst a. cbn [G.find_lab label_pos]. rewrite IH. exact Hshift.
+    + cbn in Ea. inversion Ea; subst a. cbn [G.find_lab label_pos]. rewrite lab_name_eqb, (Nat.eqb_sym l' l).
+      destruct (Nat.eqb l l'); [cbn; f_equal; lia|]. rewrite IH. exact Hshift.
+Qed.
+
+Lemma find_lab_is_lab : forall c l pos p, G.find_lab l c pos = Some p ->
+  (pos <= p)%nat /\ nth_error c (p - pos) = Some (G.FLab l).
+Proof.
+  induction c as [|x c IH]; intros l pos p H; cbn in H; [discriminate|].
+  assert (Hrec : G.find_lab l c (S pos) = Some p -> (pos <= p)%nat /\ nth_error (x :: c) (p - pos) = Some (G.FLab l)).
+  { intro H'. destruct (IH _ _ _ H') as [Hle Hn]. split; [lia|].
+    replace (p - pos)%nat with (S (p - S pos)) by lia. exact Hn. }
+  destruct x as [i|cnd x y l'|l'|l']; try (apply Hrec; exact H).
+  destruct (Nat.eqb l l') eqn:E; [|apply Hrec; exact H].
+  apply Nat.eqb_eq in E. subst l'. inversion H; subst p. split; [lia|]. rewrite Nat.sub_diag. reflexivity.
+Qed.
+
+Lemma fetch_lab : forall P pc l, nth_error P pc = Some (ALab l) -> fetch P pc = fetch P (S pc).
+Proof.
+  intros P pc l H. unfold fetch. rewrite (skipn_cons_nth _ _ _ _ H). reflexivity.
+Qed.
+
+Lemma arun_q_lab : forall P pc l n qa, nth_error P pc = Some (ALab l) ->
+  arun_q P (S n) (QRun pc qa) = arun_q P (S n) (QRun (S pc) qa).
+Proof.
+  intros P pc l n qa H. cbn [arun_q]. unfold astep_q. rewrite (fetch_lab _ _ _ H). reflexivity.
+Qed.
+
+(* ------------------------------------------------------------------ code_ok facts *)
+Lemma reg_same_eq : forall a b, reg_same a b = true -> a = b.
+Proof.
+  intros [b1 i1] [b2 i2] H. unfold reg_same, G.reg_eqb in H. apply andb_prop in H. destruct H as [Hb Hi].
+  apply Nat.eqb_eq in Hi. subst. destruct b1, b2; try discriminate; reflexivity.
+Qed.
+
+Lemma code_ok_from_nth : forall cap c prev, code_ok_from cap prev c = true ->
+  (forall k x, nth_error c k = Some x -> fcmd_ok x = true) /\
+  (forall k r, nth_error c k = Some (G.FI (G.IQ G.QAlloc r)) ->
+     exists z, (match k with O => prev | S k' => nth_error c k' end) = Some (G.FI (G.ISet r z)) /\ 0 <= z < cap).
+Proof.
+  intros cap c. induction c as [|x c IH]; intros prev H.
+  - split; intros [|k] y Hy; discriminate.
+  - cbn [code_ok_from] in H. apply andb_prop in H. destruct H as [H Hrest]. apply andb_prop in H. destruct H as [Hx Hq].
+    destruct (IH _ Hrest) as [A B]. split.
+    + intros [|k] y Hy; cbn in Hy; [inversion Hy; subst; exact Hx|eapply A; eauto].
+    + intros [|k] r Hk; cbn in Hk.
+      * inversion Hk; subst x. destruct prev as [[[r1 z| | | | | | | | | | | | ]| | |]|]; try discriminate.
+        apply andb_prop in Hq. destruct Hq as [Hq Hz2]. apply andb_prop in Hq. destruct Hq as [Hr Hz1].
+        apply reg_same_eq in Hr. subst r1. exists z. split; [reflexivity|lia].
+      * destruct (B _ _ Hk) as (z & Hz & Hr). exists z. split; [|exact Hr].
+        destruct k; exact Hz.
+Qed.
+
+(* ------------------------------------------------------------------ branches and jumps *)
+Lemma lrel_idle : forall ms qa, lrel ms qa -> lrel ms (with_st qa (qa_st qa) []).
+Proof. intros ms qa [A B C D E]. constructor; cbn [with_st qa_st qa_um qa_script qa_trace app]; assumption. Qed.
+
+Lemma br_sim : forall ms qa cnd x y l b a,
+  lrel ms qa -> rop_lt x = true -> rop_lt y = true ->
+  G.holds_at cnd x y ms = Some b -> t_fcmd (G.FBr cnd x y l) = Some a ->
+  exists mn ops, a = AIns mn [] ops /\
+    exec_q mn ops qa = if b then QEJump (ALabel (lab_name l)) (with_st qa (qa_st qa) [])
+                       else QENext (with_st qa (qa_st qa) []).
+Proof.
+  intros ms qa cnd x y l b a L Hx Hy Hh Ha. unfold G.holds_at in Hh.
+  destruct (G.rop_val ms x) as [vx|] eqn:Ex; [|destruct cnd; discriminate].
+  destruct cnd; cbn [t_fcmd] in Ha; inversion Ha; subst a; clear Ha; eexists; eexists; (split; [reflexivity|]);
+    unfold exec_q; qk; cbn [exec].
+  - (* beq *) destruct (G.rop_val ms y) as [vy|] eqn:Ey; [|discriminate]. inversion Hh; subst b.
+    rewrite (rd_rop ms qa L x Hx), (rd_rop ms qa L y Hy), Ex, Ey. cbn [cond_eq opt_z_eqb G.holds branch].
+    destruct (vx =? vy); reflexivity.
+  - (* bne *) destruct (G.rop_val ms y) as [vy|] eqn:Ey; [|discriminate]. inversion Hh; subst b.
+    rewrite (rd_rop ms qa L x Hx), (rd_rop ms qa L y Hy), Ex, Ey. cbn [cond_eq opt_z_eqb G.holds branch].
+    destruct (vx =? vy); reflexivity.
+  - (* blt *) destruct (G.rop_val ms y) as [vy|] eqn:Ey; [|discriminate]. inversion Hh; subst b.
+    rewrite (rdv_rop ms qa L x Hx), (rdv_rop ms qa L y Hy), Ex, Ey. cbn [cond_lt G.holds branch].
+    destruct (vx <? vy); reflexivity.
+  - (* bge *) destruct (G.rop_val ms y) as [vy|] eqn:Ey; [|discriminate]. inversion Hh; subst b.
+    rewrite (rdv_rop ms qa L x Hx), (rdv_rop ms qa L y Hy), Ex, Ey. cbn [cond_lt G.holds branch].
+    destruct (vx >=? vy); reflexivity.
+  - (* bez *) inversion Hh; subst b.
+    rewrite (rd_rop ms qa L x Hx), Ex. cbn [cond_un opt_z_eqb G.holds branch].
+    destruct (vx =? 0); reflexivity.
+  - (* bnz *) inversion Hh; subst b.
+    rewrite (rd_rop ms qa L x Hx), Ex. cbn [cond_un opt_z_eqb G.holds branch].
+    destruct (vx =? 0); reflexivity.
+Qed.
+
+Lemma jmp_sim : forall qa l,
+  exec_q "jmp"%string [ALabel (lab_name l)] qa = QEJump (ALabel (lab_name l)) (with_st qa (qa_st qa) []).
+Proof. intros. unfold exec_q. qk. reflexivity. Qed.
+
+(* ------------------------------------------------------------------ whole blocks *)
+Section Run.
+  Variables (cap : nat) (c : list G.fcmd) (P : list acmd).
+  Hypothesis HP : t_prog c = Some P.
+  Hypothesis Hok : code_ok cap c = true.
+
+  (* the qalloc about to be executed has its operand set to an id inside the unit module *)
+  Definition alloc_inv (pc : nat) (ms : G.mst) : Prop :=
+    forall r, nth_error c pc = Some (G.FI (G.IQ G.QAlloc r)) ->
+    exists z, G.m_reg ms r = Some z /\ 0 <= z < Z.of_nat cap.
+
+  Lemma alloc_inv_after_lab : forall pc l ms, nth_error c pc = Some (G.FLab l) -> alloc_inv pc ms.
+  Proof. intros pc l ms H r Hr. rewrite H in Hr. discriminate. Qed.
+
+  Lemma alloc_inv_next : forall pc x ms',
+    nth_error c pc = Some x ->
+    (forall r z, x = G.FI (G.ISet r z) -> G.m_reg ms' r = Some z) ->
+    alloc_inv (S pc) ms'.
+  Proof.
+    intros pc x ms' Hx Hset r Hr. unfold code_ok in Hok.
+    destruct (proj2 (code_ok_from_nth _ _ _ Hok) _ _ Hr) as (z & Hz & Hzr). cbn in Hz.
+    rewrite Hx in Hz. inversion Hz; subst x. exists z. split; [apply (Hset r z eq_refl)|exact Hzr].
+  Qed.
+
+  Lemma set_reg_same : forall ms r z, G.m_reg (G.set_reg ms r z) r = Some z.
+  Proof.
+    intros ms [b i] z. cbn. unfold G.upd_reg, G.reg_eqb. destruct b; cbn; rewrite Nat.eqb_refl; reflexivity.
+  Qed.
+
+  (* THE SDK LINK: a finished run of the flat code is reproduced by AsmSemQ on the
+     translated proto-program (labels are skipped by its fetch) *)
+  Theorem frun_sim : forall fuel pc ms ms2 qa,
+    G.frun fuel c (pc, ms) = Some ms2 -> lrel ms qa -> List.length (qa_um qa) = cap -> alloc_inv pc ms ->
+    exists n qa2, arun_q P n (QRun pc qa) = QHalted qa2 /\ lrel ms2 qa2 /\ List.length (qa_um qa2) = cap.
+  Proof.
+    destruct (t_prog_nth _ _ HP) as [Hlen Hnth].
+    induction fuel as [|f IH]; intros pc ms ms2 qa Hrun L Hcap AI; [discriminate|].
+    cbn [G.frun fst snd] in Hrun.
+    destruct (Nat.eqb pc (List.length c)) eqn:Epc.
+    - apply Nat.eqb_eq in Epc. inversion Hrun; subst ms2. exists 1%nat, qa. split; [|split; assumption].
+      cbn [arun_q]. unfold astep_q. rewrite fetch_none; [reflexivity|]. apply nth_error_None. lia.
+    - destruct (G.fstep c (pc, ms)) as [[pc' ms']|] eqn:Est; [|discriminate].
+      unfold G.fstep in Est. destruct (nth_error c pc) as [x|] eqn:Ex; [|discriminate].
+      destruct (Hnth _ _ Ex) as (a & Ha & HPa).
+      pose proof (proj1 (code_ok_from_nth _ _ _ Hok) _ _ Ex) as Hxok.
+      destruct x as [i|cnd x y l|l|l].
+      + (* instruction *)
+        destruct (G.exec_instr i ms) as [ms1|] eqn:Ei; [|discriminate]. inversion Est; subst pc' ms'.
+        cbn [t_fcmd] in Ha. destruct (t_instr_shape _ _ Ha) as (mn & ops & ->).
+        cbn [fcmd_ok] in Hxok.
+        assert (Hal : forall r, i = G.IQ G.QAlloc r ->
+                      exists z, G.m_reg ms r = Some z /\ 0 <= z < Z.of_nat (List.length (qa_um qa))).
+        { intros r ->. rewrite Hcap. apply AI. exact Ex. }
+        destruct (instr_sim i ms ms1 qa mn ops L Ei Ha Hxok Hal) as (qa1 & Hq & L1 & Hc1).
+        assert (AI1 : alloc_inv (S pc) ms1).
+        { eapply alloc_inv_next; [exact Ex|]. intros r z E. inversion E; subst i.
+          cbn [G.exec_instr] in Ei. inversion Ei; subst ms1. apply set_reg_same. }
+        destruct (IH (S pc) ms1 ms2 qa1 Hrun L1 ltac:(lia) AI1) as (n & qa2 & Hn & L2 & Hc2).
+        exists (S n), qa2. split; [|split; assumption].
+        cbn [arun_q]. unfold astep_q. rewrite (fetch_ins _ _ _ _ HPa), Hq. exact Hn.
+      + (* conditional branch *)
+        cbn [fcmd_ok] in Hxok. apply andb_prop in Hxok. destruct Hxok as [Hx Hy].
+        destruct (G.holds_at cnd x y ms) as [b|] eqn:Eh; [|discriminate].
+        destruct (br_sim ms qa cnd x y l b a L Hx Hy Eh Ha) as (mn & ops & -> & Hq).
+        destruct b.
+        * destruct (G.find_lab l c 0) as [p|] eqn:Ef; [|discriminate]. inversion Est; subst pc' ms'.
+          destruct (find_lab_is_lab _ _ _ _ Ef) as [_ Hp]. rewrite Nat.sub_0_r in Hp.
+          destruct (IH p ms ms2 _ Hrun (lrel_idle _ _ L) Hcap (alloc_inv_after_lab _ _ _ Hp)) as (n & qa2 & Hn & L2 & Hc2).
+          exists (S n), qa2. split; [|split; assumption].
+          cbn [arun_q]. unfold astep_q. rewrite (fetch_ins _ _ _ _ HPa), Hq. cbn [target].
+          pose proof (label_pos_find c P l 0 HP) as Hlp. rewrite Ef in Hlp.
+          destruct (label_pos P (lab_name l)) as [p'|]; [|discriminate]. cbn in Hlp. inversion Hlp; subst p'. exact Hn.
+        * inversion Est; subst pc' ms'.
+          assert (AI1 : alloc_inv (S pc) ms) by (eapply alloc_inv_next; [exact Ex|]; intros; discriminate).
+          destruct (IH (S pc) ms ms2 _ Hrun (lrel_idle _ _ L) Hcap AI1) as (n & qa2 & Hn & L2 & Hc2).
+          exists (S n), qa2. split; [|split; assumption].
+          cbn [arun_q]. unfold astep_q. rewrite (fetch_ins _ _ _ _ HPa), Hq. exact Hn.
+      + (* jump *)
+        destruct (G.find_lab l c 0) as [p|] eqn:Ef; [|discriminate]. inversion Est; subst pc' ms'.
+        cbn [t_fcmd] in Ha. inversion Ha; subst a.
+        destruct (find_lab_is_lab _ _ _ _ Ef) as [_ Hp]. rewrite Nat.sub_0_r in Hp.
+        destruct (IH p ms ms2 _ Hrun (lrel_idle _ _ L) Hcap (alloc_inv_after_lab _ _ _ Hp)) as (n & qa2 & Hn & L2 & Hc2).
+        exists (S n), qa2. split; [|split; assumption].
+        cbn [arun_q]. unfold astep_q. rewrite (fetch_ins _ _ _ _ HPa), jmp_sim. cbn [target].
+        pose proof (label_pos_find c P l 0 HP) as Hlp. rewrite Ef in Hlp.
+        destruct (label_pos P (lab_name l)) as [p'|]; [|discriminate]. cbn in Hlp. inversion Hlp; subst p'. exact Hn.
+      + (* label: skipped by fetch *)
+        inversion Est; subst pc' ms'. cbn [t_fcmd] in Ha. inversion Ha; subst a.
+        assert (AI1 : alloc_inv (S pc) ms) by (eapply alloc_inv_next; [exact Ex|]; intros; discriminate).
+        destruct (IH (S pc) ms ms2 qa Hrun L Hcap AI1) as (n & qa2 & Hn & L2 & Hc2).
+        destruct n as [|n]; [cbn in Hn; discriminate|].
+        exists (S n), qa2. split; [|split; assumption].
+        rewrite (arun_q_lab _ _ _ _ _ HPa). exact Hn.
+  Qed.
+
+  Lemma alloc_inv_start : forall ms, alloc_inv 0 ms.
+  Proof.
+    intros ms r Hr. unfold code_ok in Hok.
+    destruct (proj2 (code_ok_from_nth _ _ _ Hok) _ _ Hr) as (z & Hz & _). discriminate.
+  Qed.
+End Run.
